@@ -148,6 +148,17 @@ def h_sequence(eng, ops, full, quiet=False):
     ureg.disable_contexts()
     model.disable()
     probe(eng, ureg, model, x, "final", True)
+    # the registry's own settings came back as well: built with on_redefinition='raise', it still
+    # refuses to redefine an existing unit (activations suspend that setting internally)
+    from pint.errors import RedefinitionError
+
+    for line in ("w = 2 * m", "u = 3 * s"):
+        try:
+            ureg.define(line)
+        except RedefinitionError:
+            eng.prove(True, f"final:redefinition-still-refused:{line.split()[0]}")
+        else:
+            eng.fail(f"final:redefinition-accepted-after-the-sequence:{line.split()[0]}")
     # the other registry never noticed
     probe(eng, other, other_model, x, "other", False)
     # context objects are unchanged by being activated
